@@ -115,6 +115,13 @@ Theorem T10_preface_any_segmentation : forall reads tail, concat reads = connect
 Proof. exact (preface_any_segmentation ob_preface_read_full). Qed.
 Print Assumptions T10_preface_any_segmentation.
 
+(* Hand-off from the MITM path (proxy_conn.go handleMITM): the read deadline armed for the client's TLS
+   handshake is cleared before the connection is given to h2.Config.Proxy, whose relays never touch
+   deadlines.  This is a fact about the source only (obligation); the behaviour is observed by the MITM
+   hand-off scenario of the harness (a request after an idle period longer than the handshake timeout). *)
+Theorem T10_mitm_handoff_clears_read_deadline : mitm_deadline_cleared_before_h2 = true.
+Proof. exact ob_mitm_deadline_cleared_before_h2. Qed.
+
 (* Non-vacuity: the hypotheses of T10_fidelity are met by a history with a header block split over
    CONTINUATION frames, queued DATA and trailers. *)
 Example T10_example :
